@@ -392,6 +392,18 @@ def l2Feed (cfg : L2Cfg) (s : L2St) (cs : List Bytes) : L2St × Option Err :=
   match feed cfg.framer (l2Token cfg) s.fr s.up cs with
   | (fr', u', e) => ({ fr := fr', up := u' }, e)
 
+/-- `DilatedConnectionProtocol.connectionLost()`: fires the disconnect observer and nothing else — the
+    framer, `_Record`, the DCP machine and in particular the records parked in `_inbound_record_queue`
+    are left as they are (a `select` that the Connector has already scheduled still flushes them).
+    Shape pinned from the source by `Props.C12.flow_control_and_loss_pins`. -/
+def l2Lost (s : L2St) : L2St := s
+
+/-- `pauseProducing()` / `resumeProducing()`: forwarded to the transport and nothing else.  Pausing stops
+    FUTURE reads; the read being processed is handled to its last token (`dataReceived`'s loop has no early
+    exit), and nothing is held back that a later `resumeProducing` would have to hand over. -/
+def l2Pause (s : L2St) : L2St := s
+def l2Resume (s : L2St) : L2St := s
+
 def upInit (leader : Bool) : UpSt :=
   { rcd := if leader then .want_prologue_leader else .want_prologue_follower,
     dcp := DCP.init, rxNonce := 0, handshakeSent := false, kcmSent := false,
@@ -437,6 +449,7 @@ send <rec…>                   -> hex | ValueError            (send_record: the
 new <relay:0/1> <leader:0/1> <hex inbound prologue>          -> ok
 data <hex>                    -> state summary | Disconnect… (dataReceived on the model connection)
 select                        -> state summary
+lost | pause | resume         -> state summary               (connectionLost / pauseProducing / resumeProducing)
 fnew <relay:0/1> <hex inbound prologue>                      -> ok     (a `_Framer` on its own)
 fdata <hex>                   -> tokens, exception, framer state       (list(add_and_parse(data)))
 ```
@@ -553,6 +566,9 @@ def step (s : DrvSt) (line : String) : DrvSt × String :=
     match l2Select s.l2 with
     | .ok l2' => ({ s with l2 := l2' }, showL2 l2')
     | .error e => (s, e.name)
+  | ["lost"] => let l2' := l2Lost s.l2; ({ s with l2 := l2' }, showL2 l2')
+  | ["pause"] => let l2' := l2Pause s.l2; ({ s with l2 := l2' }, showL2 l2')
+  | ["resume"] => let l2' := l2Resume s.l2; ({ s with l2 := l2' }, showL2 l2')
   | ["fnew", relay, pro] =>
     match fromHex? pro with
     | some p =>
